@@ -61,6 +61,7 @@ def interleaved(ctx):
         reached, conc, ready_open = set(), 0, False
         iopen = {"LOCATING": any(d[0] == "LOCATING_STARTED" for d in first), "CONNECTION": False}
         prev_occ = occ0
+        prev_state, ping_reset = snap0[0], False
         for j, (l, app, snap, dels, occ, exc, *_) in enumerate(out):
             if not app:
                 continue
@@ -91,6 +92,16 @@ def interleaved(ctx):
                 ctx.fail("lifecycle:connected", "CONNECTED without facade / spa (interleaved schedule)", {"configured": configured, "schedule": hist})
             for who, what in exc:
                 ctx.fail("lifecycle:task_died", "task %s died inside the manager: %s" % (who, what), {"configured": configured, "schedule": hist})
+            # the reset a ping answer starts in an error state runs on a task of the connection: when that task is gone the reset must have
+            # got at least as far as disconnecting the spa (it may only die in a handler AFTER that)
+            if l == ("Ext", "RUNNING_PING_RECEIVED") and prev_state in ("ERROR_PING_MISSED", "ERROR_RF_FAULT", "ERROR_NEEDS_ATTENTION"):
+                ping_reset = True
+            if ping_reset and prev_occ[1] and not occ[1]:
+                ping_reset = False
+                if snap[0] in ("ERROR_PING_MISSED", "ERROR_RF_FAULT", "ERROR_NEEDS_ATTENTION") and snap[2] and not occ[2]:
+                    ctx.fail("lifecycle:reset_abandoned", "the reset started by a ping answered in %s was abandoned: its task is gone, the manager is still in %s with the spa in place" % (snap[0], snap[0]),
+                             {"configured": configured, "schedule": hist})
+            prev_state = snap[0]
             # a user reset / set-spa-info that has just returned: IDLE with no facade, spa or descriptors?
             if prev_occ[2] and not occ[2] and l == ("Resume", "U") and (snap[1] or snap[2] or snap[3]):
                 ctx.fail("lifecycle:reset_not_clean_concurrent", "async_reset returned with (state, facade?, spa?, descriptors?) = %r: while its RUNNING_SPA_DISCONNECTED handler was suspended "
